@@ -129,7 +129,12 @@ class Scenario:
         elif k in ("sub", "unsub", "pause", "resume"):
             t = st[2]
             mt = {"sub": W.MT_SUBSCRIBE, "unsub": W.MT_UNSUBSCRIBE, "pause": W.MT_PAUSE, "resume": W.MT_RESUME}[k]
-            self._send(cs, self._hdr(cs, mt, W.p_sub(t)), {"kind": k, "t": t})
+            kw = {}
+            if self.vary_source:
+                # the source field of a request is whatever the sender wrote (a relay, a C peer): the manager knows
+                # who is asking from the connection
+                kw["src_mod"] = [cs.mod_id or 0, cs.mod_id or 0, 0, 37, 11, 32767, -1][(cs.sent_frames * 3 + len(cs.label)) % 7]
+            self._send(cs, self._hdr(cs, mt, W.p_sub(t), **kw), {"kind": k, "t": t})
         elif k == "pub":
             _, L, t, dm, dh, size = st[:6]
             dm = self.resolve_mod(dm)
